@@ -8,7 +8,7 @@
 From Coq Require Import NArith ZArith List Bool Lia.
 From Blue Require Import Cursor.Iface Cursor.Ref Cursor.Bounds Cursor.Spec Cursor.Proofs_Order Cursor.Proofs_Ref
   Cursor.Proofs_Bounds Cursor.Proofs_Pruning Snap.Model Snap.ProofsPres Snap.ProofsLeaf Snap.ProofsScan Snap.ProofsGrow
-  Snap.ProofsLT Snap.ProofsLTP.
+  Snap.ProofsSpec Snap.ProofsLT Snap.ProofsLTP.
 Import ListNotations.
 Local Open Scope Z_scope.
 
@@ -134,7 +134,7 @@ Lemma b_rng : 0 <= b <= n. Proof. apply count_range. Qed.
 Lemma lo_idx j e : ent l j = Some e -> (in_lo lo e = true <-> a <= j).
 Proof. apply (in_lo_idx fuel lo hi l Hs). Qed.
 Lemma hi_idx j e : ent l j = Some e -> (in_hi hi e = true <-> j < b).
-Proof. apply (in_hi_idx fuel lo hi l Hs). Qed.
+Proof. apply (in_hi_idx hi l Hs). Qed.
 Lemma W_idx j e : ent l j = Some e -> Wb e = true -> a <= j < b.
 Proof.
   intros He Hw. unfold Wb, in_bounds in Hw. apply andb_prop in Hw. destruct Hw as [Hw _]. apply andb_prop in Hw. destruct Hw as [H1 H2].
@@ -148,12 +148,12 @@ Proof.
 Qed.
 Lemma g_low j : j <= a -> g j = 0.
 Proof.
-  intros Hj. destruct (Z_le_dec j 0); [now apply g_neg|]. rewrite (g_skip Wb l 0 j) by
-    (try lia; intros k e Hk He; destruct (Wb e) eqn:E; [apply (W_idx k e He) in E; lia|reflexivity]). now apply g_neg.
+  intros Hj. destruct (Z_le_dec j 0) as [H0|H0]; [now apply g_neg|]. rewrite (g_skip Wb l 0 j); [now apply g_neg|lia|].
+  intros k e Hk He. destruct (Wb e) eqn:E; [apply (W_idx k e He) in E; lia|reflexivity].
 Qed.
 Lemma g_high j : b <= j -> g j = nk.
 Proof.
-  intros Hj. destruct (Z_le_dec n j); [now apply g_end|]. rewrite <- (g_end Wb l n) by lia. symmetry. apply g_skip; [lia|].
+  intros Hj. destruct (Z_le_dec n j) as [H0|H0]; [now apply g_end|]. rewrite <- (g_end Wb l n) by lia. symmetry. apply g_skip; [lia|].
   intros k e Hk He. destruct (Wb e) eqn:E; [apply (W_idx k e He) in E; lia|reflexivity].
 Qed.
 
@@ -189,5 +189,530 @@ Proof.
   - intros e He Hw. destruct (In_ent _ _ He) as [j Hj]. apply (poslt_idx gp j e Hin Hj). now apply (H1 j e Hj).
   - intros e He Ho Hlo Hp. destruct (In_ent _ _ He) as [j Hj]. apply (hi_idx j e Hj). apply (H2 j e Hj Ho); [now apply (lo_idx j e Hj)|now apply (poslt_idx gp j e Hin Hj)].
 Qed.
+
+(* ---------------------------------------------------------------- one call on a non-empty list *)
+Hypothesis Hne : l <> [].
+Hypothesis Hfu : Z.of_nat fuel >= n + 2.
+Notation BC := (bounds ch fuel lo hi).
+
+Lemma GR_refines0 gp : posin l gp -> refines X0 (XG m (mkG l gp)) l (idx l gp).
+Proof. intros Hin. apply (xfix0_refines ch Hstep Hkv Hfail m l Hs). now apply idx_GR. Qed.
+
+Lemma recover u i : isGin u -> refines X0 u l i -> exists gp, u = XG m (mkG l gp) /\ posin l gp /\ idx l gp = i.
+Proof.
+  intros [gp [-> Hin]] Hr. exists gp. split; [reflexivity|]. split; [exact Hin|].
+  destruct (refines_unique X0 _ l _ _ Hs (GR_refines0 gp Hin) Hr) as [E|E]; [exact E|contradiction].
+Qed.
+
+Lemma isGin_isG u : isGin u -> isG m l u.
+Proof. intros [gp [-> _]]. eexists. split; reflexivity. Qed.
+
+Lemma step_eq o st : isGin (b_cur st) -> step BC o st = step (bounds X0 fuel lo hi) o st.
+Proof. intros H. apply (bstep_eq fuel ch Hstep Hkv m l Hs lo hi o st (isGin_isG _ H)). now left. Qed.
+
+Lemma step_isGin o st : isGin (b_cur st) -> isGin (b_cur (step BC o st)).
+Proof. intros H. exact (pres_bounds ch isGin isGin_closed fuel lo hi o st H). Qed.
+
+Lemma next_shape gp pos : posin l gp -> pos <> AfterEnd ->
+  exists gp', posin l gp' /\ idx l gp' = Z.max (Z.min (idx l gp + 1) n) a /\
+    step BC ONext (mkB (XG m (mkG l gp)) pos None) =
+    mkB (XG m (mkG l gp')) (if (idx l gp' <? n) && (b <=? idx l gp') then AfterEnd else Positioned) None.
+Proof.
+  intros Hin Hpos. set (st := mkB (XG m (mkG l gp)) pos None).
+  assert (isGin (b_cur st)) as HG by (exists gp; split; [reflexivity|exact Hin]).
+  pose proof (step_isGin ONext st HG) as HG'. rewrite (step_eq ONext st HG) in *.
+  cbn [step bounds c_next] in *. unfold b_guard in *. cbn [st b_fail] in *. unfold b_next_raw in *.
+  pose proof (idx_range gp Hin) as Hr. pose proof a_rng as Ha.
+  destruct (Proofs_Bounds.next_loop_spec X0 fuel lo hi l Hs fuel _ (idx l gp) pos (GR_refines0 gp Hin) Hpos Hr ltac:(lia)) as [cur' [Hc' E]].
+  unfold st in HG' |- *. rewrite E in HG' |- *. cbn [b_cur] in HG'. destruct (recover cur' _ HG' Hc') as [gp' [-> [Hin' Ei]]].
+  exists gp'. split; [exact Hin'|]. split; [exact Ei|]. rewrite Ei. reflexivity.
+Qed.
+
+Lemma next_after gp : step BC ONext (mkB (XG m (mkG l gp)) AfterEnd None) = mkB (XG m (mkG l gp)) AfterEnd None.
+Proof. cbn [step bounds c_next]. unfold b_guard. cbn [b_fail]. unfold b_next_raw. destruct fuel; reflexivity. Qed.
+
+Lemma prev_shape gp pos : posin l gp -> pos <> BeforeStart ->
+  exists gp', posin l gp' /\ idx l gp' = Z.max (idx l gp - 1) (-1) /\
+    step BC OPrev (mkB (XG m (mkG l gp)) pos None) =
+    mkB (XG m (mkG l gp')) (if (0 <=? idx l gp') && (idx l gp' <? n) && (idx l gp' <? a) then BeforeStart else Positioned) None.
+Proof.
+  intros Hin Hpos. set (st := mkB (XG m (mkG l gp)) pos None).
+  assert (isGin (b_cur st)) as HG by (exists gp; split; [reflexivity|exact Hin]).
+  pose proof (step_isGin OPrev st HG) as HG'. rewrite (step_eq OPrev st HG) in *.
+  cbn [step bounds c_prev] in *. unfold b_guard in *. cbn [st b_fail] in *. unfold b_prev_raw in *. unfold st in *. clear st.
+  cbn [b_pos b_cur b_fail] in *.
+  replace (negb (bpos_eqb pos BeforeStart)) with true in * by (destruct pos; cbn; congruence).
+  unfold set_cur, set_pos in *. cbn [b_cur b_pos b_fail] in *.
+  pose proof (idx_range gp Hin) as Hr.
+  pose proof (refines_prev_idx X0 l _ _ (GR_refines0 gp Hin) (proj1 Hr)) as Hp.
+  rewrite (check_start_idx X0 fuel lo hi l Hs _ _ None Hp) in *.
+  assert (isGin (c_prev X0 (XG m (mkG l gp)))) as HGp by (destruct ((0 <=? Z.max (idx l gp - 1) (-1)) && (Z.max (idx l gp - 1) (-1) <? n) && (Z.max (idx l gp - 1) (-1) <? a)); exact HG').
+  destruct (recover _ _ HGp Hp) as [gp' [E [Hin' Ei]]]. rewrite E in *.
+  exists gp'. split; [exact Hin'|]. split; [exact Ei|]. rewrite Ei.
+  destruct ((0 <=? Z.max (idx l gp - 1) (-1)) && (Z.max (idx l gp - 1) (-1) <? n) && (Z.max (idx l gp - 1) (-1) <? a)); reflexivity.
+Qed.
+
+Lemma prev_before gp : step BC OPrev (mkB (XG m (mkG l gp)) BeforeStart None) = mkB (XG m (mkG l gp)) BeforeStart None.
+Proof. cbn [step bounds c_prev]. unfold b_guard. cbn [b_fail]. unfold b_prev_raw. cbn [b_pos bpos_eqb negb]. reflexivity. Qed.
+
+(* ---- what the cursor shows *)
+Lemma kv_shape gp pos f : posin l gp ->
+  b_kv ch (mkB (XG m (mkG l gp)) pos f) = match pos with Positioned => ent l (idx l gp) | _ => None end.
+Proof.
+  intros Hin. unfold b_kv. cbn [b_pos b_cur]. destruct pos; try reflexivity. rewrite Hkv. cbn [g_pos].
+  pose proof (idx_GR gp Hin) as [_ H]. cbn [g_pos] in H. pose proof (len_nonneg l). destruct gp as [|x|]; cbn [g_kv idx] in *.
+  - rewrite ent_none by lia. reflexivity.
+  - now rewrite H.
+  - rewrite ent_none by lia. reflexivity.
+Qed.
+
+Lemma MK_intro gp pos : posin l gp -> INV l pos gp ->
+  MK l (mkB (XG m (mkG l gp)) pos None) (plog l pos gp) (n - idx l gp + 1) (idx l gp + 2).
+Proof. intros Hin HI. split; [exact Hs|]. split; [exact Hfu|]. split; [reflexivity|]. exists gp. cbn [b_cur b_pos]. auto 10. Qed.
+
+(* no entry of the window not newer than t at or before the position: the rank just after it is 0 *)
+Lemma g_after_before i : (forall j e, ent l j = Some e -> oldb t e = true -> j <= i -> j < a) -> g (i + 1) = 0.
+Proof.
+  intros H. destruct (Z_le_dec (i + 1) 0) as [H0|H0]; [now apply g_neg|]. rewrite (g_skip Wb l 0 (i + 1)); [now apply g_neg|lia|].
+  intros k e Hk He. destruct (Wb e) eqn:E; [|reflexivity]. pose proof (W_idx k e He E). pose proof (H k e He (W_old e E) ltac:(lia)). lia.
+Qed.
+
+Lemma mk_next st p a0 b0 : MK l st p a0 b0 -> exists p' a' b',
+  MK l (step BC ONext st) p' a' b' /\ nxt p p' /\ (b_kv ch (step BC ONext st) = None -> p' = LGap nk) /\
+  ((b_kv ch st = None /\ b_kv ch (step BC ONext st) = None) \/ a' < a0).
+Proof.
+  intros [_ [_ [Hf [gp [Hc [Hin [HI [-> [-> ->]]]]]]]]]. destruct st as [cur pos fl]. cbn [b_cur b_pos b_fail] in *. subst cur fl.
+  pose proof (idx_range gp Hin) as Hr. pose proof a_rng as Ha. pose proof b_rng as Hb. set (i := idx l gp) in *.
+  destruct (bpos_eqb pos AfterEnd) eqn:Epos.
+  - (* nothing moves *)
+    assert (pos = AfterEnd) as -> by (destruct pos; cbn in Epos; congruence). rewrite next_after.
+    exists (plog l AfterEnd gp), (n - i + 1), (i + 2). split; [now apply MK_intro|]. split; [cbn [plog nxt]; now left|]. split; [reflexivity|].
+    left. rewrite !kv_shape by exact Hin. auto.
+  - assert (pos <> AfterEnd) as Hpos by (intros ->; discriminate).
+    destruct (next_shape gp pos Hin Hpos) as [gp' [Hin' [Ei' E]]]. rewrite E. fold i in Ei'. set (i' := idx l gp') in *.
+    (* what the old state says, in one shape for BeforeStart and Positioned *)
+    assert ((forall j e, ent l j = Some e -> oldb t e = true -> a <= j -> j <= i -> j < b) /\ nu_next (plog l pos gp) = g (i + 1) /\
+            (i = n -> b_kv ch (mkB (XG m (mkG l gp)) pos None) = None)) as [Hle [Hnu Hend]].
+    { destruct pos; [| |contradiction].
+      - pose proof (proj1 (INV_before gp Hin) HI) as H. fold i in H. split; [intros j e He Ho Haj Hj; pose proof (H j e He Ho Hj); lia|].
+        split; [cbn [plog nu_next]; symmetry; now apply g_after_before|]. intros _. now rewrite kv_shape.
+      - destruct (proj1 (INV_pos gp Hin) HI) as [_ H]. fold i in H. split; [exact H|]. split; [cbn [plog]; apply nu_next_lpos|].
+        intros Ei. rewrite kv_shape by exact Hin. fold i. rewrite Ei. apply ent_none. lia. }
+    assert (forall j e, ent l j = Some e -> oldb t e = true -> a <= j -> j < i' -> j < b) as Hlt.
+    { intros j e He Ho Haj Hj. pose proof (ent_range _ _ _ He). destruct (Z_le_dec j i); [now apply (Hle j e)|lia]. }
+    assert (g i' = g (i + 1)) as Hg.
+    { destruct (Z_le_dec (i + 1) i') as [H1|H1]; [|rewrite !g_end by lia; reflexivity]. apply g_skip; [exact H1|].
+      intros k e Hk He. pose proof (ent_range _ _ _ He). destruct (Wb e) eqn:E'; [|reflexivity]. pose proof (W_idx k e He E'). lia. }
+    destruct ((i' <? n) && (b <=? i')) eqn:Eae.
+    + (* past the end bound *)
+      apply andb_prop in Eae. destruct Eae as [E1 E2]. apply Z.ltb_lt in E1. apply Z.leb_le in E2.
+      assert (INV l AfterEnd gp') as HI'.
+      { apply (INV_after gp' Hin'). fold i'. split; [|exact Hlt]. intros j e He Hw. pose proof (W_idx j e He Hw). lia. }
+      exists (plog l AfterEnd gp'), (n - i' + 1), (i' + 2). split; [now apply MK_intro|]. split; [|split; [reflexivity|right; lia]].
+      apply nxt_of_nu. cbn [plog nu]. rewrite Hnu, <- Hg. symmetry. now apply g_high.
+    + assert (i' = n \/ i' < b) as Hcase.
+      { apply andb_false_iff in Eae. destruct Eae as [E1|E1]; [apply Z.ltb_ge in E1; left; lia|apply Z.leb_gt in E1; now right]. }
+      assert (INV l Positioned gp') as HI'.
+      { apply (INV_pos gp' Hin'). fold i'. split.
+        - intros x Hx. pose proof (ent_range _ _ _ Hx). split; [lia|left; lia].
+        - intros j e He Ho Haj Hj. pose proof (ent_range _ _ _ He). destruct (Z.eq_dec j i'); [lia|]. apply (Hlt j e He Ho Haj). lia. }
+      exists (plog l Positioned gp'), (n - i' + 1), (i' + 2). split; [now apply MK_intro|]. split; [|split].
+      * apply nxt_of_nu. cbn [plog]. fold i'. rewrite nu_lpos, Hnu. exact Hg.
+      * rewrite kv_shape by exact Hin'. fold i'. intros Hk. apply ent_none_inv in Hk. assert (i' = n) as En by lia.
+        cbn [plog]. fold i'. rewrite En. unfold lpos_of. rewrite ent_none by lia. now rewrite g_end by lia.
+      * destruct (Z.eq_dec i n) as [En|En]; [left|right; lia]. split; [now apply Hend|].
+        rewrite kv_shape by exact Hin'. fold i'. apply ent_none. lia.
+Qed.
+
+Lemma mk_prev st p a0 b0 : MK l st p a0 b0 -> exists p' a' b',
+  MK l (step BC OPrev st) p' a' b' /\ prv p p' /\ (b_kv ch (step BC OPrev st) = None -> p' = LGap 0) /\
+  ((b_kv ch st = None /\ b_kv ch (step BC OPrev st) = None) \/ b' < b0) /\
+  (forall x y, b_kv ch st = Some x -> b_kv ch (step BC OPrev st) = Some y -> elt y x).
+Proof.
+  intros [_ [_ [Hf [gp [Hc [Hin [HI [-> [-> ->]]]]]]]]]. destruct st as [cur pos fl]. cbn [b_cur b_pos b_fail] in *. subst cur fl.
+  pose proof (idx_range gp Hin) as Hr. pose proof a_rng as Ha. pose proof b_rng as Hb. set (i := idx l gp) in *.
+  destruct (bpos_eqb pos BeforeStart) eqn:Epos.
+  - assert (pos = BeforeStart) as -> by (destruct pos; cbn in Epos; congruence). rewrite prev_before.
+    exists (plog l BeforeStart gp), (n - i + 1), (i + 2). split; [now apply MK_intro|]. split; [cbn [plog prv]; now left|]. split; [reflexivity|].
+    rewrite !kv_shape by exact Hin. split; [left; auto|intros x y H; discriminate].
+  - assert (pos <> BeforeStart) as Hpos by (intros ->; discriminate).
+    destruct (prev_shape gp pos Hin Hpos) as [gp' [Hin' [Ei' E]]]. rewrite E. fold i in Ei'. set (i' := idx l gp') in *.
+    assert ((forall j e, ent l j = Some e -> oldb t e = true -> a <= j -> j < i -> j < b) /\ nu (plog l pos gp) = g i /\
+            (b_kv ch (mkB (XG m (mkG l gp)) pos None) = match pos with Positioned => ent l i | _ => None end)) as [Hlt [Hnu Hkvs]].
+    { split; [|split; [|now apply kv_shape]].
+      - destruct pos; [contradiction| |].
+        + destruct (proj1 (INV_pos gp Hin) HI) as [_ H]. fold i in H. intros j e He Ho Haj Hj. apply (H j e He Ho Haj). lia.
+        + destruct (proj1 (INV_after gp Hin) HI) as [_ H]. exact H.
+      - destruct pos; [contradiction|cbn [plog]; apply nu_lpos|]. cbn [plog nu].
+        destruct (proj1 (INV_after gp Hin) HI) as [H _]. fold i in H. destruct (Z_le_dec n i) as [H0|H0]; [symmetry; now apply g_end|].
+        rewrite <- (g_end Wb l n) by lia. apply g_skip; [lia|]. intros k e Hk He. destruct (Wb e) eqn:E'; [|reflexivity]. pose proof (H k e He E'). lia. }
+    destruct ((0 <=? i') && (i' <? n) && (i' <? a)) eqn:Ebs.
+    + (* back before the start bound *)
+      apply andb_prop in Ebs. destruct Ebs as [E12 E3]. apply andb_prop in E12. destruct E12 as [E1 E2].
+      apply Z.leb_le in E1. apply Z.ltb_lt in E2, E3.
+      assert (INV l BeforeStart gp') as HI' by (apply (INV_before gp' Hin'); fold i'; intros j e He Ho Hj; lia).
+      exists (plog l BeforeStart gp'), (n - i' + 1), (i' + 2). split; [now apply MK_intro|]. split; [|split; [reflexivity|split; [right; lia|]]].
+      * apply prv_of_rho. cbn [plog rho]. rewrite Hnu. rewrite g_low by lia. reflexivity.
+      * intros x y _ Hy. rewrite kv_shape in Hy by exact Hin'. discriminate.
+    + assert (i' = -1 \/ a <= i') as Hcase.
+      { apply andb_false_iff in Ebs. destruct Ebs as [E12|E3]; [apply andb_false_iff in E12; destruct E12 as [E1|E2]|];
+          [apply Z.leb_gt in E1|apply Z.ltb_ge in E2|apply Z.ltb_ge in E3]; lia. }
+      assert (INV l Positioned gp') as HI'.
+      { apply (INV_pos gp' Hin'). fold i'. split.
+        - intros x Hx. pose proof (ent_range _ _ _ Hx). split; [lia|]. destruct (oldb t x) eqn:Eo; [left|right; now apply oldb_late].
+          apply (Hlt i' x Hx Eo); lia.
+        - intros j e He Ho Haj Hj. pose proof (ent_range _ _ _ He). apply (Hlt j e He Ho Haj). lia. }
+      exists (plog l Positioned gp'), (n - i' + 1), (i' + 2). split; [now apply MK_intro|]. split; [|split; [|split]].
+      * apply prv_of_rho. cbn [plog]. fold i'. rewrite rho_lpos, Hnu.
+        destruct (Z.eq_dec i (-1)) as [Em|Em]; [rewrite Em in *; rewrite !g_neg by lia; reflexivity|]. replace (i' + 1) with i by lia. reflexivity.
+      * rewrite kv_shape by exact Hin'. fold i'. intros Hk. apply ent_none_inv in Hk. assert (i' = -1) as En by lia.
+        cbn [plog]. fold i'. rewrite En. unfold lpos_of. rewrite ent_none by lia. now rewrite g_neg by lia.
+      * destruct (Z.eq_dec i (-1)) as [Em|Em]; [left|right; lia]. rewrite Hkvs. rewrite kv_shape by exact Hin'. fold i'.
+        split; [destruct pos; try reflexivity; rewrite Em; apply ent_none; lia|apply ent_none; lia].
+      * intros x y Hx Hy. rewrite Hkvs in Hx. rewrite kv_shape in Hy by exact Hin'. fold i' in Hy.
+        destruct pos; try discriminate. pose proof (ent_range _ _ _ Hx). pose proof (ent_range _ _ _ Hy).
+        apply (sorted_ent_lt l Hs i' i y x); [lia|exact Hy|exact Hx].
+Qed.
+
+(* ---- seek, seek_to_first, seek_to_last re-anchor: their results are exact *)
+Notation B := (bounds_spec lo hi l).
+Notation M := (len (bounds_spec lo hi l)).
+
+Lemma nk_empty : b <= a -> nk = 0.
+Proof. intros H. rewrite <- (g_high b) by lia. apply g_low. exact H. Qed.
+
+Lemma mk_exact st P : isGin (b_cur st) -> bounds_R X0 lo hi l st P -> exists p' a' b',
+  MK l st p' a' b' /\ (P = -1 -> p' = LGap 0) /\ (P = M -> p' = LGap nk) /\
+  (forall q, 0 <= q <= n -> P = Z.max 0 (Z.min q b - a) -> nu p' = g q) /\ b_kv ch st = ent B P.
+Proof.
+  intros HG HR. pose proof (sim_kv _ _ _ (bounds_sim X0 fuel lo hi l Hs Hfu) st P HR) as Hkvs. cbn [bounds c_kv] in Hkvs.
+  change (b_kv X0 st) with (b_kv ch st) in Hkvs.
+  destruct HR as [Hf [p [Hc HR]]]. destruct (recover _ _ HG Hc) as [gp [Ec [Hin Ei]]].
+  destruct st as [cur pos fl]. cbn [b_cur b_pos b_fail] in *. subst cur fl.
+  pose proof a_rng as Ha. pose proof b_rng as Hb. pose proof (M_eq fuel lo hi l Hs) as HM. pose proof (len_nonneg B) as HM0.
+  pose proof (idx_range gp Hin) as Hr. rewrite <- Ei in HR. set (i := idx l gp) in *.
+  assert (INV l pos gp /\ (P = -1 -> plog l pos gp = LGap 0) /\ (P = M -> plog l pos gp = LGap nk) /\
+          (forall q, 0 <= q <= n -> P = Z.max 0 (Z.min q b - a) -> nu (plog l pos gp) = g q)) as [HI [H1 [H2 H3]]].
+  { destruct pos.
+    - destruct HR as [-> HR]. split; [|split; [reflexivity|split; [intros; lia|intros; lia]]].
+      apply (INV_before gp Hin). fold i. intros j e He Ho Hj. pose proof (ent_range _ _ _ He). lia.
+    - split; [|split; [|split]].
+      + apply (INV_pos gp Hin). fold i. split.
+        * intros x Hx. pose proof (ent_range _ _ _ Hx). split; [lia|left; lia].
+        * intros j e He Ho Haj Hj. pose proof (ent_range _ _ _ He). lia.
+      + intros ->. cbn [plog]. fold i. assert (i = -1) as -> by lia. unfold lpos_of. rewrite ent_none by lia. now rewrite g_neg by lia.
+      + intros ->. cbn [plog]. fold i. assert (i = n) as -> by lia. unfold lpos_of. rewrite ent_none by lia. now rewrite g_end by lia.
+      + intros q Hq ->. cbn [plog]. fold i. rewrite nu_lpos. destruct HR as [[Hp HP]|[[Hp HP]|[Hp [HP Hbn]]]]; [| lia |].
+        * destruct (Z_le_dec (Z.min q b - a) 0) as [H0|H0]; [|f_equal; lia]. assert (i = a) as -> by lia. rewrite !g_low by lia. reflexivity.
+        * rewrite Hp, g_end by lia. destruct (Z_lt_dec a b) as [Hab|Hab]; [symmetry; apply g_high; lia|].
+          rewrite nk_empty by lia. pose proof (g_range Wb l q). rewrite nk_empty in H by lia. lia.
+    - destruct HR as [-> [Hp Hpb]]. split; [|split; [intros; lia|split; [reflexivity|]]].
+      + apply (INV_after gp Hin). fold i. split; [intros j e He Hw; pose proof (W_idx j e He Hw); lia|intros j e He Ho Haj Hj; lia].
+      + intros q Hq HP. cbn [plog nu]. destruct (Z_lt_dec a b) as [Hab|Hab]; [symmetry; apply g_high; lia|].
+        rewrite nk_empty by lia. pose proof (g_range Wb l q). rewrite nk_empty in H by lia. lia. }
+  exists (plog l pos gp), (n - i + 1), (i + 2). split; [now apply MK_intro|]. auto.
+Qed.
+
+Lemma mk_first st p a0 b0 : MK l st p a0 b0 -> exists a' b', MK l (step BC OFirst st) (LGap 0) a' b' /\ b_kv ch (step BC OFirst st) = None.
+Proof.
+  intros [_ [_ [Hf [gp [Hc [Hin _]]]]]]. destruct st as [cur pos fl]. cbn [b_cur b_pos b_fail] in *. subst cur fl.
+  assert (isGin (b_cur (mkB (XG m (mkG l gp)) pos None))) as HG by (exists gp; split; [reflexivity|exact Hin]).
+  pose proof (step_isGin OFirst _ HG) as HG'. rewrite (step_eq OFirst _ HG) in *. cbn [step bounds c_first] in *. unfold b_guard in *. cbn [b_fail] in *.
+  pose proof (first_R X0 fuel lo hi l _ _ pos (GR_refines0 gp Hin)) as HR.
+  destruct (mk_exact _ _ HG' HR) as [p' [a' [b' [HM [H1 [_ [_ Hk]]]]]]]. rewrite (H1 eq_refl) in HM. exists a', b'. split; [exact HM|].
+  rewrite Hk. apply ent_none. lia.
+Qed.
+Lemma mk_last st p a0 b0 : MK l st p a0 b0 -> exists a' b', MK l (step BC OLast st) (LGap nk) a' b' /\ b_kv ch (step BC OLast st) = None.
+Proof.
+  intros [_ [_ [Hf [gp [Hc [Hin _]]]]]]. destruct st as [cur pos fl]. cbn [b_cur b_pos b_fail] in *. subst cur fl.
+  assert (isGin (b_cur (mkB (XG m (mkG l gp)) pos None))) as HG by (exists gp; split; [reflexivity|exact Hin]).
+  pose proof (step_isGin OLast _ HG) as HG'. rewrite (step_eq OLast _ HG) in *. cbn [step bounds c_last] in *. unfold b_guard in *. cbn [b_fail] in *.
+  pose proof (last_R X0 fuel lo hi l Hs Hfu _ _ pos (GR_refines0 gp Hin)) as HR.
+  destruct (mk_exact _ _ HG' HR) as [p' [a' [b' [HM [_ [H2 [_ Hk]]]]]]]. rewrite (H2 eq_refl) in HM. exists a', b'. split; [exact HM|].
+  rewrite Hk. apply ent_none. lia.
+Qed.
+Lemma mk_seek st p a0 b0 k : MK l st p a0 b0 -> exists p' a' b', MK l (step BC (OSeek k) st) p' a' b' /\
+  nu p' = count (below k) (filter Wb l) /\ (b_kv ch (step BC (OSeek k) st) = None -> p' = LGap nk).
+Proof.
+  intros [_ [_ [Hf [gp [Hc [Hin _]]]]]]. destruct st as [cur pos fl]. cbn [b_cur b_pos b_fail] in *. subst cur fl.
+  assert (isGin (b_cur (mkB (XG m (mkG l gp)) pos None))) as HG by (exists gp; split; [reflexivity|exact Hin]).
+  pose proof (step_isGin (OSeek k) _ HG) as HG'. rewrite (step_eq (OSeek k) _ HG) in *. cbn [step bounds c_seek] in *. unfold b_guard in *. cbn [b_fail] in *.
+  (* seek does not depend on where the iterator stood, nor on the position of the bounds cursor *)
+  assert (b_seek_raw X0 fuel lo hi k (mkB (XG m (mkG l gp)) pos None) = b_seek_raw X0 fuel lo hi k (mkB (XG m (mkG l GHead)) Positioned None)) as E.
+  { unfold b_seek_raw, set_pos, set_cur. cbn [b_cur b_pos b_fail xfix0 c_seek].
+    pose proof (Hstep (OSeek k) m (mkG l gp)) as E1. pose proof (Hstep (OSeek k) m (mkG l GHead)) as E2. cbn [step gcur c_seek g_tab] in E1, E2.
+    rewrite E1, E2. reflexivity. }
+  rewrite E in *.
+  assert (bounds_R X0 lo hi l (mkB (XG m (mkG l GHead)) Positioned None) (-1)) as HR0.
+  { split; [reflexivity|]. exists (-1). split; [exact (GR_refines0 GHead I)|]. cbn [b_pos]. right. left. auto. }
+  pose proof (seek_R X0 fuel lo hi l Hs Hfu k _ _ HR0) as HR.
+  destruct (mk_exact _ _ HG' HR) as [p' [a' [b' [HM [_ [H2 [H3 Hk]]]]]]]. exists p', a', b'. split; [exact HM|]. split.
+  - rewrite (seek_lpos Wb l Hs k). apply H3; [apply count_range|]. apply (seek_B fuel lo hi l Hs k).
+  - rewrite Hk. intros Hn. apply ent_none_inv in Hn. pose proof (count_range (below k) B). apply H2. lia.
+Qed.
+
+(* ---- what a state shows, by its logical position *)
+Lemma mk_at st j a0 b0 : MK l st (LAt j) a0 b0 -> 0 <= j < nk /\ b_kv ch st = Some (at_ (filter Wb l) j).
+Proof.
+  intros [_ [_ [Hf [gp [Hc [Hin [HI [Hp _]]]]]]]]. destruct st as [cur pos fl]. cbn [b_cur b_pos b_fail] in *. subst cur fl.
+  destruct pos; cbn [plog] in Hp; try discriminate. symmetry in Hp. destruct (lpos_at Wb l _ j Hp) as [e [He [_ [_ [Hj Hat]]]]].
+  split; [exact Hj|]. rewrite kv_shape by exact Hin. now rewrite He, Hat.
+Qed.
+Lemma mk_gap st k a0 b0 : MK l st (LGap k) a0 b0 -> 0 <= k <= nk /\
+  match b_kv ch st with
+  | None => True
+  | Some x => lateP x /\ (k < nk -> elt x (at_ (filter Wb l) k)) /\ (0 < k -> elt (at_ (filter Wb l) (k - 1)) x)
+  end.
+Proof.
+  intros [_ [_ [Hf [gp [Hc [Hin [HI [Hp _]]]]]]]]. destruct st as [cur pos fl]. cbn [b_cur b_pos b_fail] in *. subst cur fl.
+  rewrite kv_shape by exact Hin. pose proof (len_nonneg (filter Wb l)). destruct pos; cbn [plog] in Hp.
+  - injection Hp as ->. split; [lia|exact I].
+  - symmetry in Hp. destruct (lpos_gap Wb l _ k Hp) as [-> [Hk Hx]]. split; [exact Hk|].
+    destruct (ent l (idx l gp)) as [x|] eqn:He; [|exact I].
+    destruct (proj1 (INV_pos gp Hin) HI) as [H1 _]. destruct (H1 x He) as [Ha Hb]. split.
+    + destruct Hb as [Hb|Hb]; [|exact Hb]. destruct (oldb t x) eqn:Eo; [|now apply oldb_late].
+      rewrite (W_of _ x He ltac:(lia) Eo) in Hx. discriminate.
+    + split; [now apply (gap_before_next Wb l Hs _ x)|now apply (gap_after_prev Wb l Hs _ x)].
+  - injection Hp as ->. split; [lia|exact I].
+Qed.
+Lemma mk_in st p a0 b0 x : MK l st p a0 b0 -> b_kv ch st = Some x -> In x l.
+Proof.
+  intros [_ [_ [Hf [gp [Hc [Hin _]]]]]] Hx. destruct st as [cur pos fl]. cbn [b_cur b_pos b_fail] in *. subst cur fl.
+  rewrite kv_shape in Hx by exact Hin. destruct pos; try discriminate. eapply ent_In; eauto.
+Qed.
+Lemma mk_meas st p a0 b0 : MK l st p a0 b0 -> 0 <= a0 <= n + 2 /\ 0 <= b0 <= n + 2.
+Proof. intros [_ [_ [_ [gp [_ [Hin [_ [_ [-> ->]]]]]]]]]. pose proof (idx_range gp Hin). lia. Qed.
+
+(* ---- seek_to_first does not depend on where the cursor stood *)
+Lemma exact_step o st P : isGin (b_cur st) -> bounds_R X0 lo hi l st P ->
+  isGin (b_cur (step BC o st)) /\ bounds_R X0 lo hi l (step BC o st) (step (ref B) o P).
+Proof.
+  intros HG HR. split; [now apply step_isGin|]. rewrite (step_eq o st HG). exact (sim_step _ _ _ (bounds_sim X0 fuel lo hi l Hs Hfu) o st P HR).
+Qed.
+Lemma exact_kv st P : bounds_R X0 lo hi l st P -> b_kv ch st = ent B P.
+Proof. intros HR. exact (sim_kv _ _ _ (bounds_sim X0 fuel lo hi l Hs Hfu) st P HR). Qed.
+Lemma first_exact st p a0 b0 : MK l st p a0 b0 -> isGin (b_cur (step BC OFirst st)) /\ bounds_R X0 lo hi l (step BC OFirst st) (-1).
+Proof.
+  intros [_ [_ [Hf [gp [Hc [Hin _]]]]]]. destruct st as [cur pos fl]. cbn [b_cur b_pos b_fail] in *. subst cur fl.
+  assert (isGin (b_cur (mkB (XG m (mkG l gp)) pos None))) as HG by (exists gp; split; [reflexivity|exact Hin]).
+  split; [now apply step_isGin|]. rewrite (step_eq OFirst _ HG). cbn [step bounds c_first]. unfold b_guard. cbn [b_fail].
+  exact (first_R X0 fuel lo hi l _ _ pos (GR_refines0 gp Hin)).
+Qed.
+Lemma last_exact st p a0 b0 : MK l st p a0 b0 -> isGin (b_cur (step BC OLast st)) /\ bounds_R X0 lo hi l (step BC OLast st) M.
+Proof.
+  intros [_ [_ [Hf [gp [Hc [Hin _]]]]]]. destruct st as [cur pos fl]. cbn [b_cur b_pos b_fail] in *. subst cur fl.
+  assert (isGin (b_cur (mkB (XG m (mkG l gp)) pos None))) as HG by (exists gp; split; [reflexivity|exact Hin]).
+  split; [now apply step_isGin|]. rewrite (step_eq OLast _ HG). cbn [step bounds c_last]. unfold b_guard. cbn [b_fail].
+  exact (last_R X0 fuel lo hi l Hs Hfu _ _ pos (GR_refines0 gp Hin)).
+Qed.
+Lemma mk_refirst st p a0 b0 : MK l st p a0 b0 ->
+  b_kv ch (step BC ONext (step BC OFirst (step BC ONext (step BC OFirst st)))) = b_kv ch (step BC ONext (step BC OFirst st)).
+Proof.
+  intros HM. destruct (first_exact st p a0 b0 HM) as [G1 R1]. destruct (exact_step ONext _ _ G1 R1) as [G2 R2].
+  destruct (exact_step OFirst _ _ G2 R2) as [G3 R3]. destruct (exact_step ONext _ _ G3 R3) as [G4 R4].
+  rewrite (exact_kv _ _ R4), (exact_kv _ _ R2). reflexivity.
+Qed.
+Lemma mk_relast st p a0 b0 : MK l st p a0 b0 ->
+  b_kv ch (step BC OPrev (step BC OLast (step BC OPrev (step BC OLast st)))) = b_kv ch (step BC OPrev (step BC OLast st)).
+Proof.
+  intros HM. destruct (last_exact st p a0 b0 HM) as [G1 R1]. destruct (exact_step OPrev _ _ G1 R1) as [G2 R2].
+  destruct (exact_step OLast _ _ G2 R2) as [G3 R3]. destruct (exact_step OPrev _ _ G3 R3) as [G4 R4].
+  rewrite (exact_kv _ _ R4), (exact_kv _ _ R2). reflexivity.
+Qed.
+(* the cursor as MemTable::range_scan returns it (BoundsCursor::new) *)
+Lemma mk_start : exists a' b', MK l (b_new ch lo hi (XG m (g_new l))) (LGap 0) a' b' /\ b_kv ch (b_new ch lo hi (XG m (g_new l))) = None.
+Proof.
+  set (st0 := mkB (XG m (mkG l GEnd)) BeforeStart None).
+  change (b_new ch lo hi (XG m (g_new l))) with (step BC OFirst st0).
+  assert (isGin (b_cur st0)) as HG by (exists GEnd; split; [reflexivity|exact I]).
+  pose proof (step_isGin OFirst _ HG) as HG'. rewrite (step_eq OFirst _ HG) in *. cbn [step bounds c_first] in *. unfold b_guard in *. cbn [st0 b_fail] in *.
+  pose proof (first_R X0 fuel lo hi l _ _ BeforeStart (GR_refines0 GEnd I)) as HR.
+  destruct (mk_exact _ _ HG' HR) as [p' [a' [b' [HM [H1 [_ [_ Hk]]]]]]]. rewrite (H1 eq_refl) in HM. exists a', b'. split; [exact HM|].
+  rewrite Hk. apply ent_none. lia.
+Qed.
 End OneList.
+
+(* ---------------------------------------------------------------- the empty list: nothing is ever shown *)
+Notation BC := (bounds ch fuel lo hi).
+
+Lemma rank_nil f i : rank f [] i = 0.
+Proof. unfold rank. now rewrite firstn_nil. Qed.
+Lemma plog_nil pos gp : plog [] pos gp = LGap 0.
+Proof. destruct pos; cbn [plog]; try reflexivity. unfold lpos_of. rewrite ent_nil. now rewrite rank_nil. Qed.
+
+Lemma MK_nil st p a0 b0 : MK [] st p a0 b0 -> b_fail st = None /\ isE m (b_cur st) /\ p = LGap 0.
+Proof.
+  intros [_ [_ [Hf [gp [Hc [Hin [_ [-> _]]]]]]]]. split; [exact Hf|]. split; [|apply plog_nil].
+  exists gp. split; [exact Hc|]. destruct gp as [|x|]; [now left|destruct Hin|now right].
+Qed.
+Lemma nil_MK st : Z.of_nat fuel >= 2 -> b_fail st = None -> isE m (b_cur st) -> exists a' b', MK [] st (LGap 0) a' b'.
+Proof.
+  intros Hfu Hf [gp [Hc Hgp]]. exists (len (@nil entry) - idx [] gp + 1), (idx [] gp + 2). split; [constructor|]. split; [rewrite len_nil; lia|].
+  split; [exact Hf|]. exists gp. split; [exact Hc|]. split; [destruct Hgp as [-> | ->]; exact I|]. split.
+  - destruct (b_pos st); cbn [INV]; [intros e []|split; [intros x ->; destruct Hgp; discriminate|intros e []]|split; intros e []].
+  - split; [symmetry; apply plog_nil|auto].
+Qed.
+Lemma nil_step o st : Z.of_nat fuel >= 2 -> b_fail st = None -> isE m (b_cur st) ->
+  b_fail (step BC o st) = None /\ isE m (b_cur (step BC o st)) /\ b_kv ch (step BC o st) = None /\ b_kv ch st = None.
+Proof.
+  intros Hfu Hf HE. assert (1 <= fuel)%nat as H1 by lia.
+  pose proof (mem_sim_empty fuel ch Hstep Hkv m lo hi H1) as Hsim.
+  assert (emptyR m st (-1)) as HR by (split; [exact Hf|split; [exact HE|lia]]).
+  pose proof (sim_step _ _ _ Hsim o st (-1) HR) as [Hf' [HE' _]].
+  pose proof (sim_kv _ _ _ Hsim _ _ (sim_step _ _ _ Hsim o st (-1) HR)) as K1. pose proof (sim_kv _ _ _ Hsim _ _ HR) as K2.
+  rewrite ent_nil in K1, K2. auto.
+Qed.
+
+(* ---------------------------------------------------------------- the interface of ProofsLTK, for any list *)
+Lemma MKg_at l st j a0 b0 : MK l st (LAt j) a0 b0 -> 0 <= j < len (filter Wb l) /\ b_kv ch st = Some (at_ (filter Wb l) j).
+Proof. intros HM. pose proof HM as [Hs _]. exact (mk_at l Hs st j a0 b0 HM). Qed.
+Lemma MKg_gap l st k a0 b0 : MK l st (LGap k) a0 b0 -> 0 <= k <= len (filter Wb l) /\
+  match b_kv ch st with
+  | None => True
+  | Some x => lateP x /\ (k < len (filter Wb l) -> elt x (at_ (filter Wb l) k)) /\ (0 < k -> elt (at_ (filter Wb l) (k - 1)) x)
+  end.
+Proof. intros HM. pose proof HM as [Hs _]. exact (mk_gap l Hs st k a0 b0 HM). Qed.
+Lemma MKg_in l st p a0 b0 x : MK l st p a0 b0 -> b_kv ch st = Some x -> In x l.
+Proof. intros HM. pose proof HM as [Hs _]. exact (mk_in l Hs st p a0 b0 x HM). Qed.
+Lemma MKg_meas l st p a0 b0 : MK l st p a0 b0 -> 0 <= a0 <= len l + 2 /\ 0 <= b0 <= len l + 2.
+Proof. intros HM. pose proof HM as [Hs _]. exact (mk_meas l Hs st p a0 b0 HM). Qed.
+Lemma MKg_fail l st p a0 b0 : MK l st p a0 b0 -> b_fail st = None.
+Proof. intros [_ [_ [H _]]]. exact H. Qed.
+
+Lemma MKg_next l st p a0 b0 : MK l st p a0 b0 -> exists p' a' b',
+  MK l (step BC ONext st) p' a' b' /\ nxt p p' /\ (b_kv ch (step BC ONext st) = None -> p' = LGap (len (filter Wb l))) /\
+  ((b_kv ch st = None /\ b_kv ch (step BC ONext st) = None) \/ a' < a0).
+Proof.
+  intros HM. pose proof HM as [Hs [Hfu _]]. destruct l as [|x r].
+  - destruct (MK_nil _ _ _ _ HM) as [Hf [HE ->]]. rewrite len_nil in Hfu. destruct (nil_step ONext st ltac:(lia) Hf HE) as [Hf' [HE' [K1 K2]]].
+    destruct (nil_MK _ ltac:(lia) Hf' HE') as [a' [b' HM']]. exists (LGap 0), a', b'. split; [exact HM'|]. split; [now left|]. split; [reflexivity|left; auto].
+  - apply (mk_next (x :: r) Hs ltac:(discriminate) Hfu st p a0 b0 HM).
+Qed.
+Lemma MKg_prev l st p a0 b0 : MK l st p a0 b0 -> exists p' a' b',
+  MK l (step BC OPrev st) p' a' b' /\ prv p p' /\ (b_kv ch (step BC OPrev st) = None -> p' = LGap 0) /\
+  ((b_kv ch st = None /\ b_kv ch (step BC OPrev st) = None) \/ b' < b0) /\
+  (forall x y, b_kv ch st = Some x -> b_kv ch (step BC OPrev st) = Some y -> elt y x).
+Proof.
+  intros HM. pose proof HM as [Hs [Hfu _]]. destruct l as [|x r].
+  - destruct (MK_nil _ _ _ _ HM) as [Hf [HE ->]]. rewrite len_nil in Hfu. destruct (nil_step OPrev st ltac:(lia) Hf HE) as [Hf' [HE' [K1 K2]]].
+    destruct (nil_MK _ ltac:(lia) Hf' HE') as [a' [b' HM']]. exists (LGap 0), a', b'. split; [exact HM'|]. split; [now left|]. split; [reflexivity|].
+    split; [left; auto|]. intros x y Hx. rewrite K2 in Hx. discriminate.
+  - apply (mk_prev (x :: r) Hs ltac:(discriminate) Hfu st p a0 b0 HM).
+Qed.
+Lemma MKg_seek l st p a0 b0 k : MK l st p a0 b0 -> exists p' a' b', MK l (step BC (OSeek k) st) p' a' b' /\
+  nu p' = count (below k) (filter Wb l) /\ (b_kv ch (step BC (OSeek k) st) = None -> p' = LGap (len (filter Wb l))).
+Proof.
+  intros HM. pose proof HM as [Hs [Hfu _]]. destruct l as [|x r].
+  - destruct (MK_nil _ _ _ _ HM) as [Hf [HE ->]]. rewrite len_nil in Hfu. destruct (nil_step (OSeek k) st ltac:(lia) Hf HE) as [Hf' [HE' [K1 K2]]].
+    destruct (nil_MK _ ltac:(lia) Hf' HE') as [a' [b' HM']]. exists (LGap 0), a', b'. split; [exact HM'|]. split; reflexivity.
+  - apply (mk_seek (x :: r) Hs ltac:(discriminate) Hfu st p a0 b0 k HM).
+Qed.
+Lemma MKg_first l st p a0 b0 : MK l st p a0 b0 -> exists a' b', MK l (step BC OFirst st) (LGap 0) a' b' /\ b_kv ch (step BC OFirst st) = None.
+Proof.
+  intros HM. pose proof HM as [Hs [Hfu _]]. destruct l as [|x r].
+  - destruct (MK_nil _ _ _ _ HM) as [Hf [HE ->]]. rewrite len_nil in Hfu. destruct (nil_step OFirst st ltac:(lia) Hf HE) as [Hf' [HE' [K1 K2]]].
+    destruct (nil_MK _ ltac:(lia) Hf' HE') as [a' [b' HM']]. exists a', b'. auto.
+  - apply (mk_first (x :: r) Hs ltac:(discriminate) Hfu st p a0 b0 HM).
+Qed.
+Lemma MKg_last l st p a0 b0 : MK l st p a0 b0 -> exists a' b', MK l (step BC OLast st) (LGap (len (filter Wb l))) a' b' /\ b_kv ch (step BC OLast st) = None.
+Proof.
+  intros HM. pose proof HM as [Hs [Hfu _]]. destruct l as [|x r].
+  - destruct (MK_nil _ _ _ _ HM) as [Hf [HE ->]]. rewrite len_nil in Hfu. destruct (nil_step OLast st ltac:(lia) Hf HE) as [Hf' [HE' [K1 K2]]].
+    destruct (nil_MK _ ltac:(lia) Hf' HE') as [a' [b' HM']]. exists a', b'. auto.
+  - apply (mk_last (x :: r) Hs ltac:(discriminate) Hfu st p a0 b0 HM).
+Qed.
+Lemma MKg_refirst l st p a0 b0 : MK l st p a0 b0 ->
+  b_kv ch (step BC ONext (step BC OFirst (step BC ONext (step BC OFirst st)))) = b_kv ch (step BC ONext (step BC OFirst st)).
+Proof.
+  intros HM. pose proof HM as [Hs [Hfu _]]. destruct l as [|x r].
+  - destruct (MK_nil _ _ _ _ HM) as [Hf [HE ->]]. rewrite len_nil in Hfu.
+    destruct (nil_step OFirst st ltac:(lia) Hf HE) as [Hf1 [HE1 _]]. destruct (nil_step ONext _ ltac:(lia) Hf1 HE1) as [Hf2 [HE2 [K2 _]]].
+    destruct (nil_step OFirst _ ltac:(lia) Hf2 HE2) as [Hf3 [HE3 _]]. destruct (nil_step ONext _ ltac:(lia) Hf3 HE3) as [_ [_ [K4 _]]]. now rewrite K2, K4.
+  - apply (mk_refirst (x :: r) Hs ltac:(discriminate) Hfu st p a0 b0 HM).
+Qed.
+Lemma MKg_relast l st p a0 b0 : MK l st p a0 b0 ->
+  b_kv ch (step BC OPrev (step BC OLast (step BC OPrev (step BC OLast st)))) = b_kv ch (step BC OPrev (step BC OLast st)).
+Proof.
+  intros HM. pose proof HM as [Hs [Hfu _]]. destruct l as [|x r].
+  - destruct (MK_nil _ _ _ _ HM) as [Hf [HE ->]]. rewrite len_nil in Hfu.
+    destruct (nil_step OLast st ltac:(lia) Hf HE) as [Hf1 [HE1 _]]. destruct (nil_step OPrev _ ltac:(lia) Hf1 HE1) as [Hf2 [HE2 [K2 _]]].
+    destruct (nil_step OLast _ ltac:(lia) Hf2 HE2) as [Hf3 [HE3 _]]. destruct (nil_step OPrev _ ltac:(lia) Hf3 HE3) as [_ [_ [K4 _]]]. now rewrite K2, K4.
+  - apply (mk_relast (x :: r) Hs ltac:(discriminate) Hfu st p a0 b0 HM).
+Qed.
+
+Lemma MKg_start l : sorted l -> Z.of_nat fuel >= len l + 2 ->
+  exists a' b', MK l (b_new ch lo hi (XG m (g_new l))) (LGap 0) a' b' /\ b_kv ch (b_new ch lo hi (XG m (g_new l))) = None.
+Proof.
+  intros Hs Hfu. destruct l as [|x r].
+  - rewrite len_nil in Hfu. set (st0 := mkB (XG m (mkG [] GEnd)) BeforeStart None).
+    change (b_new ch lo hi (XG m (g_new []))) with (step BC OFirst st0).
+    assert (isE m (b_cur st0)) as HE by (exists GEnd; split; [reflexivity|now right]).
+    destruct (nil_step OFirst st0 ltac:(lia) eq_refl HE) as [Hf' [HE' [K1 _]]]. destruct (nil_MK _ ltac:(lia) Hf' HE') as [a' [b' HM']]. exists a', b'. auto.
+  - apply (mk_start (x :: r) Hs ltac:(discriminate) Hfu).
+Qed.
+
+(* ---------------------------------------------------------------- the list grows *)
+(* l' is l with some entries newer than t inserted *)
+Definition grows (l l' : list entry) : Prop :=
+  sorted l' /\ (forall x, In x l -> In x l') /\ (forall x, In x l' -> In x l \/ lateP x).
+
+Lemma grows_refl l : sorted l -> grows l l.
+Proof. intros H. split; [exact H|]. split; auto. Qed.
+Lemma grows_trans l1 l2 l3 : grows l1 l2 -> grows l2 l3 -> grows l1 l3.
+Proof.
+  intros [_ [A1 B1]] [S3 [A2 B2]]. split; [exact S3|]. split; [auto|]. intros x Hx. destruct (B2 x Hx) as [H|H]; [|now right]. apply B1. exact H.
+Qed.
+
+(* a filter that keeps nothing newer than t does not see the insertions *)
+Lemma grows_filter f l l' : sorted l -> grows l l' -> (forall x, f x = true -> oldb t x = true) -> filter f l' = filter f l.
+Proof.
+  intros Hs [Hs' [Hin Hnew]] Hf. apply sorted_ext; [now apply sorted_filter|now apply sorted_filter|].
+  intros e. rewrite !filter_In. split; intros [H1 H2]; (split; [|exact H2]).
+  - destruct (Hnew e H1) as [H|H]; [exact H|]. apply oldb_late in H. rewrite (Hf e H2) in H. discriminate.
+  - now apply Hin.
+Qed.
+
+Definition grank (F : list entry) (gp : gpos) : Z :=
+  match gp with GHead => 0 | GAt x => count (fun y => eltb y x) F | GEnd => len F end.
+Lemma rank_idx l gp : sorted l -> rank Wb l (idx l gp) = grank (filter Wb l) gp.
+Proof.
+  intros Hs. destruct gp as [|x|]; cbn [idx grank].
+  - apply rank_neg. lia.
+  - symmetry. apply (count_filter_prefix Wb (fun y => eltb y x) l Hs (before_downclosed x)).
+  - apply rank_len. lia.
+Qed.
+
+Definition regrow (l' : list entry) (st : bstate xst) : bstate xst :=
+  match b_cur st with
+  | XG m0 g0 => mkB (XG m0 (mkG l' (g_pos g0))) (b_pos st) (b_fail st)
+  | _ => st
+  end.
+
+Lemma MK_grow l l' st p a0 b0 : MK l st p a0 b0 -> grows l l' -> Z.of_nat fuel >= len l' + 2 ->
+  filter Wb l' = filter Wb l /\ b_kv ch (regrow l' st) = b_kv ch st /\ exists a' b', MK l' (regrow l' st) p a' b'.
+Proof.
+  intros [Hs [_ [Hf [gp [Hc [Hin [HI [-> _]]]]]]]] Hg Hfu'.
+  assert (forall x, Wb x = true -> oldb t x = true) as HWo by (intros x H; unfold Wb in H; apply andb_prop in H; tauto).
+  pose proof (grows_filter Wb l l' Hs Hg HWo) as EF. pose proof Hg as [Hs' [Hsub Hnew]].
+  assert (forall e, In e l' -> oldb t e = true -> In e l) as Hold.
+  { intros e He Ho. destruct (Hnew e He) as [H|H]; [exact H|]. apply oldb_late in H. congruence. }
+  destruct st as [cur pos fl]. cbn [b_cur b_pos b_fail] in *. subst cur fl. unfold regrow. cbn [b_cur b_pos b_fail g_pos].
+  assert (posin l' gp) as Hin' by (destruct gp as [|x|]; cbn [posin] in *; auto).
+  split; [exact EF|]. split.
+  { unfold b_kv. cbn [b_pos b_cur]. destruct pos; try reflexivity. now rewrite !Hkv. }
+  exists (len l' - idx l' gp + 1), (idx l' gp + 2). split; [exact Hs'|]. split; [exact Hfu'|]. split; [reflexivity|].
+  exists gp. cbn [b_cur b_pos]. split; [reflexivity|]. split; [exact Hin'|]. split; [|split; [|auto]].
+  - destruct pos; cbn [INV] in *.
+    + intros e He Ho. apply HI; [now apply Hold|exact Ho].
+    + destruct HI as [H1 H2]. split; [exact H1|]. intros e He Ho. apply H2; [now apply Hold|exact Ho].
+    + destruct HI as [H1 H2]. split.
+      * intros e He Hw. apply H1; [apply Hold; [exact He|now apply HWo]|exact Hw].
+      * intros e He Ho. apply H2; [now apply Hold|exact Ho].
+  - destruct pos; cbn [plog]; [reflexivity| |now rewrite EF].
+    unfold lpos_of. rewrite (rank_idx l gp Hs), (rank_idx l' gp Hs'), EF.
+    destruct (ent l (idx l gp)) as [x|] eqn:E1.
+    + apply (idx_ent l Hs gp x Hin) in E1. rewrite (proj2 (idx_ent l' Hs' gp x Hin') E1). reflexivity.
+    + destruct (ent l' (idx l' gp)) as [x|] eqn:E2; [|reflexivity].
+      apply (idx_ent l' Hs' gp x Hin') in E2. rewrite (proj2 (idx_ent l Hs gp x Hin) E2) in E1. discriminate.
+Qed.
 End MemKid.
